@@ -62,6 +62,16 @@ CHECKS = {
          "closed) is validated against the protocol by TLC.",
     note="frame kinds of arbitrary content are inferred from observed yields; shape consistency is computed from the data model only; termination is a 40 s alarm per load",
     technique="TLA+ protocol model (ApiLoad.tla) checked with TLC + trace validation of real load_one/load_many executions on truncated/mutated corpus files"),
+ "C17": dict(
+    category="model_checking", design_ref="DESIGN.md section 6 C17",
+    text="The registry (modules, patterns, operations, declared lists) is exported from the live code into RegistryData.tla; "
+         "TLC checks ExplicitWins, ErrorIffNoCandidate, ResultSupports, MatchesPattern on every (realised match signature x "
+         "operation x explicit format) scenario and that every declared name is an IOData attribute; recorded public-API calls "
+         "(selected module observed through probes, executed twice in shuffled order, FileFormatError touches nothing), the "
+         "lists printed by docs/gen_formats*.py and the CLI help, the non-None attributes of every loaded corpus/generated file "
+         "and the enforcement of each required attribute before open are validated against the specification by TLC.",
+    note="file names are abstracted to match signatures computed by an independent glob matcher; a dict attribute counts as set when not None",
+    technique="TLA+ model (Select.tla + registry generated from live code) checked with TLC + TLC validation of recorded API selections, declared lists and loaded objects"),
 }
 NOT_YET = "check not built yet in this round (planned, see DESIGN.md section 6)"
 
